@@ -48,6 +48,7 @@ DESCRIPTION = {
     "real_code": ["sqllineage/core/models.py (Schema, Table)", "sqllineage/config.py", "both analyzers' table factories", "LineageRunner"],
     "stubs": ["thread scheduling (baton)", "threading as seen by sqllineage.config: get_ident / enumerate / current_thread answer with simulated identities; a quarter of the threads of multi-thread runs are unknown to the threading module (raw _thread / C-created)", "process environment flips by an operator actor"],
     "assumptions": [
+        "crash points inside an analysis are the source lines of config.py and core/models.py executed by it (every Schema / Table / Column built, every configuration read) - never inside the configuration's own __call__ / __enter__ / __exit__; line granularity only",
         "the template set is fixed and committed: the input dimension (programs) is not searched here",
         "the qualifier-fallback site Table(qualifier) for a column qualifier that names no relation in scope is invalid SQL and is not templated",
         "environment flips happen only while every analysing thread is inside a scoped override (a flip during an environment-driven analysis would legitimately change its meaning mid-way)",
